@@ -2,6 +2,8 @@
 import r_consts
 import r_flags
 import r_hazmat
+import r_globals
+import r_round
 
 LEVEL = "other"
 EXPLANATION = ("Decides the domain-separation and table clauses that are necessary for the one-shot functions to compute "
@@ -36,3 +38,6 @@ def run(ctx):
     ctx.run_rule("F5", r_flags.rule_F5, cfgs)
     ctx.run_rule("F6", r_flags.rule_F6, cfgs)
     ctx.run_rule("H1", r_hazmat.rule_H1, cfgs)
+    # the child CVs are read back as one contiguous prefix of cv_array: the split point must be degree*OUT_LEN
+    ctx.run_rule("G3", r_globals.rule_G3, cfgs)
+    ctx.run_rule("R1p", r_round.rule_R1_portable, [c for c in cfgs if c in ("asm-full", "portable1")])
